@@ -17,7 +17,7 @@ func init() {
 		Explanation: "PATH/typestate rules on system.Dialer: R-C11-1 after every fn(ctx,dctx) the cleanup closure of the same DialContext runs exactly once before the next init or any return and its error is returned; " +
 			"R-C11-2 every socket obtained from ndp.Listen/dialNDP/rtnetlink.Dial is, on every return path, returned, captured by the returned cleanup closure, closed or deferred-closed; " +
 			"R-C11-3 the cleanup closure leaves the group, closes, then restores autoconf on every path; R-C11-4 autoconf get precedes disable, restore writes the value read, restore closure returned iff disable did not fail fatally, tolerated-error table; " +
-			"R-C11-5 who may call State.SetIPv6Autoconf / write DialContext.done R-C11-6 the sysctl helpers return the os error as is or %w-wrapped, so the restore closure's tolerance tests can see it; R-C11-7 (linux) the autoconf getter and setter address exactly the \"autoconf\" sysctl key and return the helper's result untouched.",
+			"R-C11-5 who may call State.SetIPv6Autoconf / write DialContext.done R-C11-6 the sysctl helpers return the os error as is or %w-wrapped, so the restore closure's tolerance tests can see it, and they fail only because a call into package os (or another sysctl helper) failed; R-C11-7 (linux) the autoconf getter and setter address exactly the \"autoconf\" sysctl key and return the helper's result untouched.",
 		Assumptions: []string{
 			"Go type checker and go/ssa construction are correct",
 			"(*ndp.Conn).Close releases the socket and its multicast memberships",
@@ -70,6 +70,8 @@ func runC11(c *Ctx) {
 // flattened into text.
 func c11SysctlCause(c *Ctx) { sysctlCause(c, "R-C11-6") }
 
+var sysctlHelpers = map[string]bool{"sysctlEnable": true, "sysctlBool": true, "setIPv6Autoconf": true, "getIPv6Autoconf": true, "getIPv6Forwarding": true}
+
 func sysctlCause(c *Ctx, rule string) {
 	n := 0
 	for _, name := range []string{"sysctlEnable", "sysctlBool", "setIPv6Autoconf", "getIPv6Autoconf", "getIPv6Forwarding"} {
@@ -104,6 +106,20 @@ func sysctlCause(c *Ctx, rule string) {
 					b, _ := stripExtract(e)
 					return (e.Op == an.OpCall || e.Op == an.OpExtract) && b != nil && b.Op == an.OpCall && b.Fn != nil && !(b.Fn.String() == "fmt.Errorf") && !strings.HasPrefix(b.Fn.String(), "errors.")
 				})
+			}
+			// the failure comes from the file system (package os) or from one of the sysctl helpers: the restore
+			// closure can classify nothing else (a name lookup, a netlink query, … fails with errors of its own
+			// for a vanished interface, and the tolerated failure becomes fatal)
+			if cause != nil {
+				b, _ := stripExtract(cause)
+				fromOS := false
+				if b != nil && b.Op == an.OpCall && b.Fn != nil {
+					if fo := an.FuncObj(b.Fn); fo != nil && fo.Pkg() != nil && (fo.Pkg().Path() == "os" || (fo.Pkg().Path() == f.Pkg.Pkg.Path() && sysctlHelpers[fo.Name()])) {
+						fromOS = true
+					}
+				}
+				c.R.Check(fromOS, rule, fn+":failure-source@"+shortElem(cause), fn, c.pos(p.Ret.Pos()), "fails because of "+cause.String(),
+					"the sysctl helpers fail only when the read or write of the /proc/sys file fails", "a failure of another kind (interface lookup, netlink) is not one the restore closure tolerates: restoring autoconf on a vanished interface becomes a fatal error and the task ends instead of re-dialling")
 			}
 			n++
 			c.R.Check(okRes, rule, fn+":cause-kept-in-chain", fn, c.pos(p.Ret.Pos()), "returns "+res.String(),
